@@ -50,8 +50,11 @@ def corpus_lines(limit, seed):
     return lines[:limit], len(lines)
 
 
+FAMILY_FILES = ['harness/lexfam.py', 'harness/lexrun.py', 'harness/tagfam.py', 'spec/Lexer.tla', 'spec/LexerOps.tla', 'spec/LexerImpl.tla', 'spec/LexerTrace.tla', 'spec/LexerTrace.cfg', 'spec/MC_Lexer_quick.cfg', 'spec/MC_Lexer_thorough.cfg']
+
+
 def collect(tier):
-    th = common.tree_hash()
+    th = common.tree_hash(FAMILY_FILES)
     key = "%s/lexfam_%s_%d" % (th, tier, common.seed())
     with common.Lock("lexfam_" + tier):
         cd = common.cache_dir(key)
